@@ -42,7 +42,8 @@ def runs_ok(labels):
     return True
 
 
-def check_feature(obj, f, X, y, kind, vals, viol):
+def check_feature(obj, f, X, y, kind, vals, viol, raw_vals=None):
+    raw = next((r for r, lst in obj.features_casting.items() if f in lst), f)  # multiclass: f_<class> is fed by the raw column
     order = obj.values_orders[f]
     leaders = [l for l in order if not space.is_nan_leader(l)]
     is_float = obj.output_dtype == "float"
@@ -63,10 +64,10 @@ def check_feature(obj, f, X, y, kind, vals, viol):
         if leaders and leaders[-1] != math.inf:
             viol.append({"kind": "last-not-unbounded", "what": f"{f}: last boundary is {leaders[-1]!r}, not +inf"})
         # probe transform
-        train = [v for v in X[f].tolist() if not isnan(v)]
+        train = [v for v in X[raw].tolist() if not isnan(v)]
         allb = [m for l in leaders for m in order.content[l] if not space.is_nan_leader(m)]
         P = probes(allb, train)
-        frame = pd.DataFrame({c: (pd.Series(P, dtype=float) if c == f else pd.Series([X[c].iloc[0]] * len(P), dtype=X[c].dtype)) for c in X.columns})
+        frame = pd.DataFrame({c: (pd.Series(P, dtype=float) if c == raw else pd.Series([X[c].iloc[0]] * len(P), dtype=X[c].dtype)) for c in X.columns})
         try:
             out = obj.transform(frame)[f].tolist()
         except Exception as exc:  # noqa
@@ -108,8 +109,8 @@ def check_feature(obj, f, X, y, kind, vals, viol):
             if rs[0] <= prev_hi:
                 viol.append({"kind": "ordinal-order", "what": f"{f}: groups are not in ranking order ({list(order)!r})"})
             prev_hi = rs[-1]
-        known = [v for v in vals if order.contains(v)]
-        frame = pd.DataFrame({c: (pd.Series(known, dtype=object) if c == f else pd.Series([X[c].iloc[0]] * len(known), dtype=X[c].dtype)) for c in X.columns})
+        known = [rv for v, rv in zip(vals, raw_vals or vals) if order.contains(v)]  # probes are the raw (possibly numeric) values
+        frame = pd.DataFrame({c: (pd.Series(known, dtype=object) if c == raw else pd.Series([X[c].iloc[0]] * len(known), dtype=X[c].dtype)) for c in X.columns})
         try:
             out = obj.transform(frame)[f].tolist()
         except Exception as exc:  # noqa
@@ -122,8 +123,11 @@ def check_feature(obj, f, X, y, kind, vals, viol):
             viol.append({"kind": "ordinal-not-monotone", "what": f"{f}: label is not non-decreasing in rank: {out!r}"})
         return info
     # categorical: base order is non-decreasing in training target rate
-    col = X[f].tolist()
+    col = X[raw].tolist()
     yv = y.tolist()
+    if raw != f:  # multiclass: the column f_<class> is carved against the indicator of that class
+        cls_name = f[len(raw) + 1 :]
+        yv = [1 if str(v) == cls_name else 0 for v in yv]
     rates = []
     for l in leaders:
         mem = order.content[l]
@@ -151,15 +155,20 @@ def run_case(case):
     if obj is None:
         res["outcome"] = "fit-" + fit["status"]
         return res
-    if "f" not in obj.features:
+    if not obj.features:
         res["outcome"] = "dropped"
         return res
-    info = check_feature(obj, "f", fit["X"], fit["y"], case["kind"], fit["vals"], res["violations"])
+    info = 0
+    vals = fit["vals"]
+    if case["kind"] == "ORD":
+        vals = [v if isinstance(v, str) else space.str_form(v) for v in vals]
+    for f in list(obj.features):
+        info += check_feature(obj, f, fit["X"], fit["y"], case["kind"], vals, res["violations"], raw_vals=list(fit["vals"]))
     # carvers on categorical features: groups are runs of the rate-sorted base modalities (also judged in C01)
     res["outcome"] = f"{case['type']}:{case['kind']}:{obj.output_dtype}:{'nan' if case.get('nan') else '-'}"
     if info >= 2:
         res["nontrivial"] = repr(sorted(case.items(), key=str))
-    res["sample"]["order"] = [repr(x) for x in obj.values_orders["f"]]
+    res["sample"]["order"] = {f: [repr(x) for x in obj.values_orders[f]] for f in obj.features}
     return res
 
 
